@@ -28,6 +28,7 @@ type t05Doc struct {
 	null    map[string]bool   // JSON name -> the value is null
 	raw     map[string]string // JSON name -> value text
 	exactVer *uint16          // the value under the exact key "ver" when "VER" states another one
+	extra   map[string]interface{} // members no struct field matches (what a map decode sees in addition)
 	retyped map[string]bool   // JSON name -> the value has another JSON type than the field (a string for a boolean, a number or a list; a number for a string)
 	variant map[string]bool   // JSON name -> the text (also) carries the key in upper case (encoding/json matches struct fields case-insensitively, a map does not)
 }
@@ -369,6 +370,9 @@ func t05Unmarshal(data []byte, v any) error {
 				(*dst)[strings.ToUpper(name)] = t05Any(d, name)
 			}
 		}
+		for name, v := range d.extra {
+			(*dst)[name] = v
+		}
 		return nil
 	case *map[string]json.RawMessage:
 		if *dst == nil {
@@ -439,13 +443,14 @@ func t05ArbitraryIn(tag string, reduced bool) *t05Doc {
 	}
 	absent := map[string]bool{}
 	nullName := ""
+	nested := ""
 	// shape: 0 = not JSON; 1 = every key; 2.. = one key absent; then one key null
 	n := len(names)
 	shape := 1
 	if reduced {
 		shape = 1 + vChoose(3, tag+"shape")
 	} else {
-		shape = vChoose(2+4*n+1, tag+"shape")
+		shape = vChoose(2+5*n+1, tag+"shape")
 	}
 	t05CaseOnly = nil
 	var d *t05Doc
@@ -467,13 +472,24 @@ func t05ArbitraryIn(tag string, reduced bool) *t05Doc {
 	case shape < 2+3*n:
 		// one key occurs only in upper case
 		t05CaseOnly = map[string]bool{names[shape-2-2*n]: true}
-	case shape > 2+3*n:
+	case shape > 2+3*n && shape <= 2+4*n:
 		// one value has another JSON type than its field
 		t05Retyped = names[shape-3-3*n]
+	case shape > 2+4*n:
+		// one key is absent at the top level; its name occurs only as a
+		// member of a nested object under a name no field has
+		nested = names[shape-3-4*n]
+		absent[nested] = true
 	}
 	d = t05Render(&k, false, absent, nullName)
 	t05CaseOnly = nil
 	t05Retyped = ""
+	if nested != "" {
+		inner := `{"` + nested + `":1}`
+		d.text = `{"ext":` + inner + "," + d.text[1:]
+		d.raw["ext"] = inner
+		d.extra = map[string]interface{}{"ext": map[string]interface{}{nested: float64(1)}}
+	}
 	if shape == 2+3*n {
 		// every key, and after them "VER" with another value: the struct
 		// field takes the last one, a map keeps both keys
